@@ -13,7 +13,7 @@ Tie      : (1) differential: seeded histories of set_dimensions / write_all / wr
                chunk's own boundary tags and end pointer are decoded from the RAW FILE (pread; extracted AdfCodec
                decoders) and compared with the model: number of chunks, capacity of each, and every dumped byte the
                model specifies -- the model is pinned to the code's allocation decisions, not only to its answers.
-The variant of the code (old unsigned count / the three proposed repairs) is DETECTED by running four witness
+The variant of the code (old unsigned count / the four proposed repairs) is DETECTED by running five witness
 histories on the library; the model is run in that variant, and every defect present is reported through ck.finding.
 
 run_extra(ck) is called from checks/C02.py; run(ck) / replay(ck, path) let `./check C02c` work on its own."""
@@ -26,6 +26,7 @@ TYPES = {"C1": 1, "B1": 1, "I4": 4, "U4": 4, "R4": 4, "I8": 8, "U8": 8, "R8": 8,
 KEY_WALL = "adf-write-all-shrinks-chunk-under-table"
 KEY_WBLK = "adf-write-block-new-chunk-wrong-offset"
 KEY_ZERO = "adf-zero-fill-overreads-zero-block"
+KEY_RBLK = "adf-read-block-incomplete-memset-overflow"
 KEY_UNSIGNED = "adf-write-data-unsigned-count"
 WHAT = {
     KEY_WALL: "ADF_Write_All_Data (several chunks) rewrites the last chunk it fills with chunk_bytes = the bytes that go into it: the "
@@ -38,6 +39,9 @@ WHAT = {
     KEY_ZERO: "ADFI_write_data_chunk(NULL) writes DISK_BLOCK_SIZE - offset + 1 bytes from the 4096-byte block_of_00: a new chunk of "
               "more than 4096 data bytes whose data area starts on a block boundary reads 4097 bytes from it (ASan "
               "global-buffer-overflow in ADFI_write_file); the loop that follows never advances the block, so the chunk is not zeroed",
+    KEY_RBLK: "ADF_Read_Block_Data (several chunks that hold less than the block asked for: the node was re-dimensioned beyond its "
+              "capacity and not yet rewritten) reports INCOMPLETE_DATA after memset(data_pointer, 0, total_bytes - bytes_read) into the "
+              "caller's buffer of block_bytes bytes: heap-buffer-overflow WRITE (ASan) of up to the whole node's size",
     KEY_UNSIGNED: "ADF_Write_Data counts the remaining bytes in an unsigned variable (state before /repo d6f9e64)",
 }
 
@@ -441,6 +445,8 @@ def witnesses(path):
                  "dims I4 1 600", "wblk 301 350 " + i4(range(3000, 3050)), "rblk 301 350", "rsel 1 301 350 1", "reopen", "rblk 301 350"]
     # a 5000-byte chunk whose data area starts at offset 0 of a block (pad found by search: see zero_pad)
     w["zero"] = None
+    # two chunks of 16 bytes, re-dimensioned to 88 bytes and not rewritten: read_block of the last element (8 bytes wanted)
+    w["rblk"] = [new, "dims I8 1 2", "wall " + "11" * 16, "dims I8 1 4", "wblk 4 4 " + "22" * 8, "dims I8 1 11", "rblk 11 11"]
     return w
 
 
@@ -476,8 +482,8 @@ def detect(exe, work):
     pad = find_zero_pad(exe, work)
     w["zero"] = zero_witness(path, pad) if pad else None
     present, details = {}, {}
-    bits = {"unsigned": "0", "wall": "0", "wblk": "0", "zero": "0"}
-    for name, key in (("unsigned", KEY_UNSIGNED), ("wall", KEY_WALL), ("wblk", KEY_WBLK), ("zero", KEY_ZERO)):
+    bits = {"unsigned": "0", "wall": "0", "wblk": "0", "zero": "0", "rblk": "0"}
+    for name, key in (("unsigned", KEY_UNSIGNED), ("wall", KEY_WALL), ("wblk", KEY_WBLK), ("zero", KEY_ZERO), ("rblk", KEY_RBLK)):
         script = w[name]
         if not script:
             details[name] = "no witness"; continue
@@ -497,7 +503,7 @@ def detect(exe, work):
                             "oracle": "plain Python array of the elements written since the last set_dimensions; sanitizer"}
         if os.path.exists(path):
             os.unlink(path)
-    cfg = bits["unsigned"] + bits["wall"] + bits["wblk"] + bits["zero"]
+    cfg = bits["unsigned"] + bits["wall"] + bits["wblk"] + bits["zero"] + bits["rblk"]
     return cfg, present, details, w
 
 
@@ -519,6 +525,8 @@ def crash_key(outcome, stack):
     answer for a call the library did not survive)"""
     if "global-buffer-overflow" in outcome and "ADFI_write_data_chunk" in stack:
         return KEY_ZERO
+    if "heap-buffer-overflow" in outcome and "ADF_Read_Block_Data" in stack:
+        return KEY_RBLK
     return "adf-chunks-crash:" + outcome.split("@")[-1]
 
 
@@ -571,7 +579,7 @@ def run_extra(ck, pid="C02c"):
 
     findings, diffs = {}, []
     cfg, present, details, wit = detect(exe, work)
-    ex["variant_detected"] = {"cfg(unsigned,fix_wall,fix_wblock,fix_zero)": cfg, "witnesses": details}
+    ex["variant_detected"] = {"cfg(unsigned,fix_wall,fix_wblock,fix_zero,fix_rblock)": cfg, "witnesses": details}
     for key, rep in present.items():
         findings[key] = dict(rep, mode="witness")
 
